@@ -63,7 +63,7 @@ impl<'a> CapCtx<'a> {
 				if r & 1 == 0 {
 					0
 				} else {
-					1 + (r >> 8) % 4
+					1 + (r >> 8) % 8
 				}
 			}
 		}
@@ -136,11 +136,28 @@ impl Raw {
 	}
 }
 
+#[derive(Clone, Copy)]
 struct ScalarV<'a>(&'a CapCtx<'a>);
 impl<'de, 'a> Visitor<'de> for ScalarV<'a> {
 	type Value = Raw;
 	fn expecting(&self, f: &mut fmt::Formatter) -> fmt::Result {
 		f.write_str("a scalar")
+	}
+	/// a newtype struct around a scalar (`struct Id(u64)`): whatever is inside
+	fn visit_newtype_struct<D: Deserializer<'de>>(self, d: D) -> Result<Raw, D::Error> {
+		self.0.tick();
+		d.deserialize_any(self)
+	}
+	fn visit_some<D: Deserializer<'de>>(self, d: D) -> Result<Raw, D::Error> {
+		self.0.tick();
+		d.deserialize_any(self)
+	}
+	/// a Rust enum of unit variants: the variant's name
+	fn visit_enum<A: EnumAccess<'de>>(self, data: A) -> Result<Raw, A::Error> {
+		self.0.tick();
+		let (name, variant) = data.variant_seed(IdentSeed(self))?;
+		variant.unit_variant()?;
+		Ok(name)
 	}
 	fn visit_unit<E: de::Error>(self) -> Result<Raw, E> {
 		self.0.tick();
@@ -196,6 +213,14 @@ impl<'de, 'a> Visitor<'de> for ScalarV<'a> {
 	}
 }
 
+struct IdentSeed<'a>(ScalarV<'a>);
+impl<'de, 'a> DeserializeSeed<'de> for IdentSeed<'a> {
+	type Value = Raw;
+	fn deserialize<D: Deserializer<'de>>(self, d: D) -> Result<Raw, D::Error> {
+		d.deserialize_identifier(self.0)
+	}
+}
+
 impl<'de, 'a> DeserializeSeed<'de> for Capture<'a> {
 	type Value = Val;
 	fn deserialize<D: Deserializer<'de>>(self, d: D) -> Result<Val, D::Error> {
@@ -222,7 +247,11 @@ impl<'de, 'a> DeserializeSeed<'de> for Capture<'a> {
 						1 => d.deserialize_str(sv)?,
 						2 => d.deserialize_string(sv)?,
 						3 => d.deserialize_byte_buf(sv)?,
-						_ => d.deserialize_any(sv)?,
+						4 => d.deserialize_any(sv)?,
+						5 => d.deserialize_char(sv)?,
+						6 => d.deserialize_newtype_struct("N", sv)?,
+						7 => d.deserialize_option(sv)?,
+						_ => d.deserialize_identifier(sv)?,
 					}))
 				}
 				Ty::String | Ty::Uuid => {
@@ -230,7 +259,11 @@ impl<'de, 'a> DeserializeSeed<'de> for Capture<'a> {
 						1 => d.deserialize_string(sv)?,
 						2 => d.deserialize_bytes(sv)?,
 						3 => d.deserialize_identifier(sv)?,
-						_ => d.deserialize_any(sv)?,
+						4 => d.deserialize_any(sv)?,
+						5 => d.deserialize_char(sv)?,
+						6 => d.deserialize_newtype_struct("N", sv)?,
+						7 => d.deserialize_byte_buf(sv)?,
+						_ => d.deserialize_enum("E", &[], sv)?,
 					}))
 				}
 				Ty::DecimalBytes { .. } | Ty::DecimalFixed { .. } | Ty::BigDecimal => {
@@ -238,7 +271,11 @@ impl<'de, 'a> DeserializeSeed<'de> for Capture<'a> {
 						1 => d.deserialize_i128(sv)?,
 						2 => d.deserialize_u64(sv)?,
 						3 => d.deserialize_f64(sv)?,
-						_ => d.deserialize_i64(sv)?,
+						4 => d.deserialize_i64(sv)?,
+						5 => d.deserialize_str(sv)?,
+						6 => d.deserialize_u128(sv)?,
+						7 => d.deserialize_f32(sv)?,
+						_ => d.deserialize_bytes(sv)?,
 					}))
 				}
 				Ty::Int | Ty::Long | Ty::Date | Ty::TimeMillis | Ty::TimeMicros | Ty::TimestampMillis | Ty::TimestampMicros => {
@@ -246,6 +283,31 @@ impl<'de, 'a> DeserializeSeed<'de> for Capture<'a> {
 						1 => d.deserialize_identifier(sv)?,
 						2 => d.deserialize_u64(sv)?,
 						3 => d.deserialize_i64(sv)?,
+						4 => d.deserialize_any(sv)?,
+						5 => d.deserialize_u8(sv)?,
+						6 => d.deserialize_i16(sv)?,
+						7 => d.deserialize_f64(sv)?,
+						_ => d.deserialize_newtype_struct("N", sv)?,
+					}))
+				}
+				Ty::Float | Ty::Double if alt <= 4 => {
+					return Ok(raw_to_val(match alt {
+						1 => d.deserialize_f64(sv)?,
+						2 => d.deserialize_f32(sv)?,
+						3 => d.deserialize_any(sv)?,
+						_ => d.deserialize_newtype_struct("N", sv)?,
+					}))
+				}
+				Ty::Boolean if alt <= 2 => {
+					return Ok(raw_to_val(match alt {
+						1 => d.deserialize_any(sv)?,
+						_ => d.deserialize_option(sv)?,
+					}))
+				}
+				Ty::Null if alt <= 3 => {
+					return Ok(raw_to_val(match alt {
+						1 => d.deserialize_option(sv)?,
+						2 => d.deserialize_unit_struct("N", sv)?,
 						_ => d.deserialize_any(sv)?,
 					}))
 				}
@@ -254,7 +316,11 @@ impl<'de, 'a> DeserializeSeed<'de> for Capture<'a> {
 						1 => d.deserialize_u64(sv)?,
 						2 => d.deserialize_identifier(sv)?,
 						3 => d.deserialize_str(sv)?,
-						_ => d.deserialize_any(sv)?,
+						4 => d.deserialize_any(sv)?,
+						5 => d.deserialize_enum("E", &[], sv)?,
+						6 => d.deserialize_string(sv)?,
+						7 => d.deserialize_i32(sv)?,
+						_ => d.deserialize_bytes(sv)?,
 					}))
 				}
 				Ty::Union(ts) if alt <= 2 => {
@@ -268,7 +334,12 @@ impl<'de, 'a> DeserializeSeed<'de> for Capture<'a> {
 					};
 				}
 				Ty::Record { fields, .. } if alt == 1 => return d.deserialize_map(RecV { fields, ctx }),
+				Ty::Record { fields, .. } if alt == 2 => return d.deserialize_any(RecV { fields, ctx }),
 				Ty::Array(t) if alt == 1 => return d.deserialize_tuple(0, SeqV { elem: t, ctx }),
+				Ty::Array(t) if alt == 2 => return d.deserialize_tuple_struct("T", 0, SeqV { elem: t, ctx }),
+				Ty::Array(t) if alt == 3 => return d.deserialize_any(SeqV { elem: t, ctx }),
+				Ty::Map(t) if alt == 1 => return d.deserialize_any(MapV { val: t, ctx }),
+				Ty::Map(t) if alt == 2 => return d.deserialize_struct("M", &[], MapV { val: t, ctx }),
 				_ => {}
 			}
 		}
